@@ -147,7 +147,8 @@ def gen_cases_for(seed_, n):
                             while e < len(extra) and not extra[e].startswith("--"):
                                 e += 1
                             del extra[j:e]
-                ops.append({"op": "cli", "input": k, "fw": rng.choice(FWS), "flat": flat, "extra": extra, "again": rng.random() < 0.3})
+                ops.append({"op": "cli", "input": k, "fw": rng.choice(FWS), "flat": flat, "extra": extra, "again": rng.random() < 0.3,
+                            "fmt": "yaml" if rng.random() < 0.2 else "json"})
             if rng.random() < 0.5:
                 ops.append({"op": "implicit", "strings": rng.sample(["2018-01-02", "10:30:00", "1", "2.5", "true", "abc", "2018-01-02T10:30:00"], 3), "fw": rng.choice(FWS)})
             cases.append({"i": i, "inputs": inputs, "ops": ops})
@@ -356,10 +357,13 @@ def exec_op(state, inputs, op):
             if cli is None:
                 cli = state["cli"] = Cli()
             with tempfile.TemporaryDirectory(prefix="j2m_c14_") as td:
-                path = os.path.join(td, "in.json")
+                # JSON text is YAML (flow style): the same document can be read through the YAML loader of the CLI
+                path = os.path.join(td, "in.yaml" if op.get("fmt") == "yaml" else "in.json")
                 with open(path, "w") as f:
                     json.dump(inp["samples"], f)
                 argv = ["-m", inp["name"], path, "-f", op["fw"], "-s", "flat" if op["flat"] else "nested"] + list(op["extra"])
+                if op.get("fmt") == "yaml":
+                    argv += ["-i", "yaml"]
                 outpath = None
                 if op.get("outname"):
                     # -o FILE; concurrent pipelines (C15) write their different files into one shared directory
